@@ -1,12 +1,14 @@
 import HopModel.Driver.C14
 import HopModel.Driver.C20
 import HopModel.Driver.C13
+import HopModel.Driver.C12
 
 def main (args : List String) : IO UInt32 := do
   match args with
   | "C14" :: rest => Driver.C14.main rest; return 0
   | "C20" :: rest => Driver.C20.main rest; return 0
   | "C13" :: rest => Driver.C13.main rest; return 0
+  | "C12" :: rest => Driver.C12.main rest; return 0
   | _ =>
     IO.eprintln "usage: hopmodel <Cxx> [--spec] < ops.txt > model.txt"
     return 2
